@@ -426,12 +426,13 @@ Fixpoint lf_rest (fs : list (string * fval)) : string :=
   | f :: r => if is_message f then lf_rest r else (String " " (lf_pair f) ++ lf_rest r)%string
   end.
 Definition get_message (fs : list (string * fval)) (m : fval) : string :=
-  match fs with
-  | [_] => match m with FStr s => s | _ => EmptyString end           (* fields["message"].(string) *)
-  | _ => (lf_pair ("message"%string, m) ++ lf_rest fs)%string
+  match fs, m with
+  | [_], FStr s => s                                                  (* if msg, ok := fields["message"].(string); ok { return msg } *)
+  | _, _ => (lf_pair ("message"%string, m) ++ lf_rest fs)%string
   end.
 
-(* lines the model covers: no "message" field; or "message" is a string and the only field; or a "message" line all of whose
+(* lines the model covers: no "message" field; or "message" is a string and the only field; or a "message" line (a single
+   non-string message included, since the fix of defect influx-single-non-string-message) all of whose
    fields are strings / integers / booleans (carried with their text) with keys that keep at least one rune *)
 Definition lf_field_ok (f : string * fval) : bool :=
   match lf_value (snd f) with Some _ => negb (String.eqb (lf_key 0 true (fst f)) EmptyString) | None => false end.
@@ -439,9 +440,9 @@ Definition iline_modelled (l : iline) : bool :=
   match find is_message (il_fields l) with
   | None => forallb (fun f => match snd f with FIntT _ | FUintT _ | FBoolT _ => false | _ => true end) (il_fields l)
   | Some (_, m) =>
-    match il_fields l with
-    | [_] => match m with FStr _ => true | _ => false end
-    | fs => forallb lf_field_ok fs && Nat.eqb (List.length (filter is_message fs)) 1
+    match il_fields l, m with
+    | [_], FStr _ => true
+    | fs, _ => forallb lf_field_ok fs && Nat.eqb (List.length (filter is_message fs)) 1
     end
   end.
 
